@@ -65,8 +65,22 @@ def gen(ctx):
     if not m:
         raise RuntimeError("cannot find the pause rule of GC:step")
     out["PAUSE_SCALE"] = int(m.group(1))
-    if not re.search(r"size\s*<\s*#@usize\s*\)\s*then\s*flags\s*=\s*flags\s*\|\s*GCFlags\.LEAF", gcsrc):
-        raise RuntimeError("cannot find the 'size < #@usize => LEAF' rule of GC:register")
+    # where the collector decides that a block is too small to hold a pointer
+    out["AUTO_LEAF_ON_REGISTER"] = bool(re.search(
+        r"size\s*<\s*#@usize\s*\)\s*then\s*flags\s*=\s*flags\s*\|\s*GCFlags\.LEAF", gcsrc))
+    ntests = len(re.findall(r"not\s+hasflag\(item\.flags,\s*GCFlags\.LEAF\)\s+and\s+item\.size\s*>=\s*#@usize\s+then", gcsrc))
+    nplain = len(re.findall(r"not\s+hasflag\(item\.flags,\s*GCFlags\.LEAF\)\s+then", gcsrc))
+    if ntests + nplain != 2:
+        raise RuntimeError("cannot find the two LEAF tests of GC_markptrs / GC_scanptr (%d sized, %d plain)" % (ntests, nplain))
+    if ntests not in (0, 2):
+        raise RuntimeError("GC_markptrs and GC_scanptr disagree on the size test (%d of 2)" % ntests)
+    out["SCAN_SIZE_TEST"] = ntests == 2
+    # order of the two statements in the same-address path of GC:reregister
+    m1 = re.search(r"item\.size\s*=\s*newsize", gcsrc)
+    m2 = re.search(r"if likely\(newsize > oldsize\) then", gcsrc)
+    if not m1 or not m2:
+        raise RuntimeError("cannot find 'item.size = newsize' / the growth branch of GC:reregister")
+    out["RESIZE_BEFORE_STEP"] = m1.start() < m2.start()
     out["WORD_SIZE"] = 8
     txt = ("(* GENERATED by checks/C10.py from /repo (lib/allocators/gc.nelua, lib/allocators/allocator.nelua) - do not edit *)\n"
            "From Coq Require Import ZArith.\n")
@@ -75,6 +89,8 @@ def gen(ctx):
     txt += "Definition WORD_SIZE : Z := %d%%Z.\n" % out["WORD_SIZE"]
     txt += "Definition DEFAULT_PAUSE : Z := %d%%Z.\n" % out["DEFAULT_PAUSE"]
     txt += "Definition PAUSE_SCALE : Z := %d%%Z.\n" % out["PAUSE_SCALE"]
+    for name in ("AUTO_LEAF_ON_REGISTER", "SCAN_SIZE_TEST", "RESIZE_BEFORE_STEP"):
+        txt += "Definition %s : bool := %s.\n" % (name, "true" if out[name] else "false")
     vlib.write_if_changed(os.path.join(vlib.coq_dir(ID), "Gen.v"), txt)
     return out
 
